@@ -813,6 +813,30 @@ func eventTables(c *Ctx, rule string) {
 				sort.Strings(got)
 				c.Check(strings.Join(got, ",") == "Bookmark,Error,EventType,Old,Resource", rule, "server.mapEvent :: wire event carries EventType, Resource, Old, Error, Bookmark", al.Pos(), strings.Join(got, ","), "wire event fields: "+strings.Join(got, ","))
 				c.Check(Glob("*param#1.Bookmark", p.Desc(fields["Bookmark"])) || Glob("*var:pkg/state.Event.Bookmark", p.Desc(fields["Bookmark"])), rule, "server.mapEvent :: Bookmark is the event's bookmark", al.Pos(), "yes", "Bookmark = "+p.Desc(fields["Bookmark"]))
+
+				// Resource / Old are marshaled from this event's own resources, in this call: not looked up, not remembered
+				for fld, src := range map[string]string{"Resource": "Resource", "Old": "Old"} {
+					okLeaves, seenMarshal := true, false
+					detail := ""
+
+					for _, leaf := range PhiLeaves(fields[fld]) {
+						if isNilConst(leaf) {
+							continue
+						}
+
+						d := p.DescN(leaf, 4)
+						if Glob("call:(*pkg/resource/protobuf.Resource).Marshal(call:pkg/resource/protobuf.FromResource(*."+src+"*)#0)#0", d) {
+							seenMarshal = true
+
+							continue
+						}
+
+						okLeaves = false
+						detail = fld + " can be " + d
+					}
+
+					c.Check(okLeaves && seenMarshal, rule, "server.mapEvent :: "+fld+" is FromResource(event."+src+").Marshal() of this event", al.Pos(), "yes", "the wire "+fld+" is not marshaled from this event's "+src+": "+detail)
+				}
 			}
 		}
 	}
